@@ -453,7 +453,7 @@ fn real_path(
                 let all_judged = wants.iter().all(|a| matches!(a, Answer::Offset(_)));
                 // how a value applies an offset of a day or more is outside every listed property
                 // (`Offset` documents +-23:59:59); only the resolved offset itself is judged then
-                let within_a_day = wants.iter().all(|a| matches!(a, Answer::Offset(o) if o.abs() < 86_400));
+                let within_a_day = wants.iter().all(|a| matches!(a, Answer::Offset(o) if o.unsigned_abs() < 86_400));
                 if !within_a_day {
                     if let Some(s) = stats.as_deref_mut() {
                         s.inc("c18.unjudged.getters_with_offset_of_a_day_or_more");
@@ -687,7 +687,8 @@ pub fn checksum_sibling(bytes: &[u8], rng: &mut Rng) -> Option<Vec<u8>> {
             c[4 * j..4 * j + 4].copy_from_slice(&b.to_be_bytes());
         }
         if let Ok(zz) = tzref::parse_tzif(&c) {
-            if zz.footer_consistent() && zz.premise_holds() && answers(&zz) != base_answers {
+            let sane = zz.trans.iter().all(|(t, _)| t.unsigned_abs() < 1 << 44);
+            if sane && zz.footer_consistent() && zz.premise_holds() && answers(&zz) != base_answers {
                 return Some(c);
             }
         }
